@@ -427,7 +427,12 @@ impl<'a> Gen<'a> {
                 }
             }
         } else if self.cfg.inbound_unknown_ids && roll < 9 {
-            subs.push(SubRef::Raw(1000 + self.rng.below(5000) as u32));
+            let raw = if self.cfg.rich && self.rng.coin() {
+                *self.rng.pick(&[16_383u32, 16_384, 2_097_151, 2_097_152, 268_435_455])
+            } else {
+                1000 + self.rng.below(5000) as u32
+            };
+            subs.push(SubRef::Raw(raw));
         } else if !self.cfg.inbound_absent_ids {
             if subs_known.is_empty() {
                 return;
